@@ -69,7 +69,23 @@ func (x *c18go) Describe() string {
 		l = append(l, n.Name+":"+r)
 	}
 	sort.Strings(l)
-	return "lists " + strings.Join(l, " ")
+	d := "lists " + strings.Join(l, " ")
+	if x.g.Hooks != "" {
+		d += fmt.Sprintf("; nodeutil.Node with pass-through callbacks %s (each calls the documented default ref.DoXxx); called so far: %v", x.g.Hooks, x.g.HookSeen())
+	}
+	return d
+}
+
+// reportHooks records, for a store whose nodeutil.Node carries pass-through callbacks, which of them the library called during the case.
+func reportHooks(c *core.Ctx, t c18store) {
+	x, ok := t.(*c18go)
+	if !ok || x == nil || x.g.Hooks == "" {
+		return
+	}
+	c.Count("store_with_callbacks")
+	for _, h := range x.g.HookSeen() {
+		c.Shape("callbacks/%s/called/%s", x.g.Hooks, h)
+	}
 }
 
 // signatures of the reference store stay as they were; other stores are named
@@ -191,6 +207,7 @@ func (p c18) Run(c *core.Ctx, idx int) {
 		dp.DropEmptyLists(model)
 	}
 	c.Count("store_" + storeName)
+	defer func() { reportHooks(c, target) }()
 	if storeKind > 0 && idx%3 == 1 {
 		// the Go values start out empty and the library itself builds them: every container, list and entry is one it created
 		// for an insert (a list it creates for a compound key must keep entries apart that share a part of the key)
